@@ -13,321 +13,23 @@ package c14
 
 import (
 	"fmt"
-	"os"
-	"runtime"
-	"strings"
-	"sync"
 	"testing"
-	"time"
 
+	"github.com/emersion/go-imap/v2/verifh/kit/conc"
 	"github.com/emersion/go-imap/v2/verifh/kit/ev"
-	"github.com/emersion/go-imap/v2/verifh/kit/mem"
 	"pgregory.net/rapid"
 )
 
 func TestMain(m *testing.M) { ev.Main(m) }
 
-var boxes = []string{"A", "B", "C"}
-
-type fataler interface {
-	Fatalf(string, ...any)
-}
-
-// op is one step of a session program.
-type op struct {
-	kind string // select, copy, move, fetch, store, expunge, append, list, status, create, delete, rename, idle, noop, search, close
-	box  string
-	arg  string
-}
-
-func (o op) String() string { return strings.TrimSpace(o.kind + " " + o.box + " " + o.arg) }
-
-type trial struct {
-	progs  [][]op
-	procs  int
-	preload int
-}
-
-func (tr trial) String() string {
-	var p []string
-	for i, prog := range tr.progs {
-		var l []string
-		for _, o := range prog {
-			l = append(l, o.String())
-		}
-		p = append(p, fmt.Sprintf("S%d[%s]", i, strings.Join(l, "; ")))
-	}
-	return fmt.Sprintf("GOMAXPROCS=%d preload=%d %s", tr.procs, tr.preload, strings.Join(p, " "))
-}
-
-const watchdog = 20 * time.Second
-
-func serverStacks() string {
-	buf := make([]byte, 4<<20)
-	buf = buf[:runtime.Stack(buf, true)]
-	var keep []string
-	for _, g := range strings.Split(string(buf), "\n\n") {
-		if strings.Contains(g, "go-imap/v2/imapserver") {
-			if len(g) > 2500 {
-				g = g[:2500] + "\n\t…"
-			}
-			keep = append(keep, g)
-		}
-	}
-	if len(keep) > 16 {
-		keep = keep[:16]
-	}
-	return strings.Join(keep, "\n\n")
-}
-
-func persist(tr trial) {
-	if path := os.Getenv("VERIF_INFLIGHT"); path != "" {
-		os.WriteFile(path, []byte(fmt.Sprintf("{\"property\":\"C14\",\"what\":\"trial running when the process died\",\"trial\":%q}", tr.String())), 0o644)
-	}
-}
-
-func unpersist() {
-	if path := os.Getenv("VERIF_INFLIGHT"); path != "" {
-		os.Remove(path)
-	}
-}
-
-var msgText = []byte("From: a@example.org\r\nSubject: stress\r\n\r\n" + strings.Repeat("body line of the stress message\r\n", 6))
-
-// runTrial returns the number of commands that completed.
-func runTrial(t fataler, tr trial) int {
-	persist(tr)
-	defer unpersist()
-	old := runtime.GOMAXPROCS(tr.procs)
-	defer runtime.GOMAXPROCS(old)
-	w := mem.Start(boxes...)
-	stopped := false
-	defer func() {
-		if !stopped {
-			go w.Stop() // after a deadlock Stop may never return
-		}
-	}()
-	setup, err := w.Dial()
-	if err != nil {
-		t.Fatalf("dial: %v", err)
-	}
-	for _, b := range boxes {
-		for i := 0; i < tr.preload; i++ {
-			if _, st, err := setup.Append(b, `(\Deleted)`, msgText); err != nil || st.Status != "OK" {
-				t.Fatalf("preload: %v %v", st, err)
-			}
-		}
-	}
-	setup.Close()
-	conns := make([]*mem.Conn, len(tr.progs))
-	for i := range tr.progs {
-		c, err := w.Dial()
-		if err != nil {
-			t.Fatalf("dial: %v", err)
-		}
-		c.Raw.Timeout = watchdog
-		conns[i] = c
-	}
-	var mu sync.Mutex
-	var problems []string
-	completed := 0
-	var wg sync.WaitGroup
-	start := make(chan struct{})
-	for i, prog := range tr.progs {
-		wg.Add(1)
-		go func(i int, prog []op, c *mem.Conn) {
-			defer wg.Done()
-			<-start
-			for _, o := range prog {
-				var err error
-				text := ""
-				switch o.kind {
-				case "append":
-					text = "APPEND " + o.box
-					_, _, err = c.Append(o.box, "", msgText)
-				case "idle":
-					text = "IDLE"
-					if err = c.StartIdle(); err == nil {
-						time.Sleep(200 * time.Microsecond)
-						_, _, err = c.Done()
-					}
-				default:
-					text = render(o)
-					_, _, err = c.Do(strings.Fields(text)[0], false, text)
-				}
-				if err != nil {
-					mu.Lock()
-					problems = append(problems, fmt.Sprintf("session %d: %q did not complete: %v", i, text, err))
-					mu.Unlock()
-					return
-				}
-				mu.Lock()
-				completed++
-				mu.Unlock()
-			}
-		}(i, prog, conns[i])
-	}
-	close(start)
-	done := make(chan struct{})
-	go func() { wg.Wait(); close(done) }()
-	select {
-	case <-done:
-	case <-time.After(watchdog + 10*time.Second):
-		mu.Lock()
-		problems = append(problems, "sessions still running after the watchdog")
-		mu.Unlock()
-	}
-	mu.Lock()
-	p := append([]string(nil), problems...)
-	n := completed
-	mu.Unlock()
-	if len(p) > 0 {
-		var tails []string
-		for i, c := range conns {
-			l := c.Log
-			if len(l) > 6 {
-				l = l[len(l)-6:]
-			}
-			tails = append(tails, fmt.Sprintf("-- session %d:\n   %s", i, strings.Join(l, "\n   ")))
-		}
-		t.Fatalf("%s\ntrial: %s\nserver log: %v\nlast lines per session:\n%s\nserver goroutines:\n%s", strings.Join(p, "\n"), tr, w.Env.Log.Lines(), strings.Join(tails, "\n"), serverStacks())
-	}
-	if ps := w.Env.Log.Panics(); len(ps) > 0 {
-		t.Fatalf("server log reports a panic: %s\ntrial: %s", strings.Join(ps, " | "), tr)
-	}
-	for _, c := range conns {
-		c.Close()
-	}
-	stopped = true
-	w.Stop()
-	return n
-}
-
-func render(o op) string {
-	switch o.kind {
-	case "select":
-		return "SELECT " + o.box
-	case "copy":
-		return "COPY " + o.arg + " " + o.box
-	case "move":
-		return "MOVE " + o.arg + " " + o.box
-	case "uidcopy":
-		return "UID COPY " + o.arg + " " + o.box
-	case "fetch":
-		return "FETCH " + o.arg + " (UID FLAGS BODY.PEEK[])"
-	case "fetchseen":
-		return "FETCH " + o.arg + " (BODY[TEXT])"
-	case "store":
-		return "STORE " + o.arg + " +FLAGS (\\Deleted kw)"
-	case "unstore":
-		return "UID STORE " + o.arg + " -FLAGS (\\Deleted)"
-	case "expunge":
-		return "EXPUNGE"
-	case "list":
-		return `LIST "" "*" RETURN (STATUS (MESSAGES UNSEEN))`
-	case "lsub":
-		return `LIST (SUBSCRIBED) "" "*"`
-	case "status":
-		return "STATUS " + o.box + " (MESSAGES UIDNEXT UNSEEN SIZE)"
-	case "create":
-		return "CREATE " + o.arg
-	case "delete":
-		return "DELETE " + o.arg
-	case "rename":
-		return "RENAME " + o.box + " " + o.arg
-	case "subscribe":
-		return "SUBSCRIBE " + o.box
-	case "noop":
-		return "NOOP"
-	case "search":
-		return "SEARCH OR DELETED TEXT stress"
-	case "uidsearch":
-		return "UID SEARCH RETURN (ALL COUNT) UNDELETED " + o.arg
-	case "close":
-		return "CLOSE"
-	case "unselect":
-		return "UNSELECT"
-	}
-	panic("unknown op " + o.kind)
-}
-
-var sets = []string{"1:*", "1:*", "1", "*", "2:4", "1:3,5:*", "3:1"}
-var extra = []string{"X", "Y", "X/sub"}
-
-func genProg(t *rapid.T, home string) []op {
-	prog := []op{{kind: "select", box: home}}
-	n := rapid.IntRange(2, 9).Draw(t, "nops")
-	kinds := []string{"copy", "copy", "move", "move", "uidcopy", "fetch", "fetch", "fetchseen", "store", "unstore", "expunge", "append", "append", "list", "lsub",
-		"status", "create", "delete", "rename", "subscribe", "idle", "noop", "search", "uidsearch", "select", "close"}
-	selected := true
-	for i := 0; i < n; i++ {
-		k := rapid.SampledFrom(kinds).Draw(t, "kind")
-		o := op{kind: k, box: rapid.SampledFrom(boxes).Draw(t, "box"), arg: rapid.SampledFrom(sets).Draw(t, "set")}
-		switch k {
-		case "create", "delete":
-			o.arg = rapid.SampledFrom(extra).Draw(t, "name")
-		case "rename":
-			o.box, o.arg = rapid.SampledFrom(extra).Draw(t, "from"), rapid.SampledFrom(extra).Draw(t, "to")
-		case "select":
-			selected = true
-		case "close":
-			if !selected {
-				continue
-			}
-			selected = false
-		case "copy", "move", "uidcopy", "fetch", "fetchseen", "store", "unstore", "expunge", "search", "uidsearch", "idle":
-			if !selected {
-				prog = append(prog, op{kind: "select", box: home})
-				selected = true
-			}
-		}
-		prog = append(prog, o)
-	}
-	return prog
-}
-
-func genTrial(t *rapid.T) trial {
-	tr := trial{procs: rapid.SampledFrom([]int{2, 4, 8, 16}).Draw(t, "gomaxprocs"), preload: rapid.SampledFrom([]int{3, 12, 40}).Draw(t, "preload")}
-	n := rapid.IntRange(2, 8).Draw(t, "sessions")
-	for i := 0; i < n; i++ {
-		tr.progs = append(tr.progs, genProg(t, boxes[i%len(boxes)]))
-	}
-	return tr
-}
-
-func opposite(tr trial) bool {
-	// two sessions copying/moving between the same two mailboxes in opposite directions
-	type edge struct{ from, to string }
-	seen := map[edge]int{}
-	for i, prog := range tr.progs {
-		cur := ""
-		for _, o := range prog {
-			switch o.kind {
-			case "select":
-				cur = o.box
-			case "close":
-				cur = ""
-			case "copy", "move", "uidcopy":
-				if cur != "" && cur != o.box {
-					if j, ok := seen[edge{o.box, cur}]; ok && j != i+1 {
-						return true
-					}
-					seen[edge{cur, o.box}] = i + 1
-				}
-			}
-		}
-	}
-	return false
-}
-
 func TestPropStress(t *testing.T) {
 	rapid.Check(t, func(t *rapid.T) {
-		tr := genTrial(t)
-		n := runTrial(t, tr)
+		tr := conc.GenTrial(t)
+		n := conc.RunTrial(t, tr, nil)
 		ev.Eval()
 		ev.ClassN("commands-completed", int64(n))
-		ev.Class(fmt.Sprintf("sessions=%d", len(tr.progs)))
-		if opposite(tr) {
+		ev.Class(fmt.Sprintf("sessions=%d", len(tr.Progs)))
+		if conc.Opposite(tr) {
 			ev.NonTrivial(tr.String())
 			ev.Class("opposite-direction-copy/move-pair")
 		}
@@ -342,37 +44,10 @@ func TestReplayScenarios(t *testing.T) {
 	if ev.Thorough() {
 		reps = 600
 	}
-	loop := func(k string, box, arg string, n int) []op {
-		var l []op
-		for i := 0; i < n; i++ {
-			l = append(l, op{kind: k, box: box, arg: arg})
-		}
-		return l
-	}
-	sel := func(b string) []op { return []op{{kind: "select", box: b}} }
 	for i := 0; i < reps; i++ {
-		procs := []int{2, 4, 16}[i%3]
-		// copies and moves in opposite directions
-		runTrial(t, trial{procs: procs, preload: 40, progs: [][]op{
-			append(sel("A"), loop("copy", "B", "1:*", 4)...),
-			append(sel("B"), loop("copy", "A", "1:*", 4)...),
-			append(sel("A"), loop("move", "B", "1:3", 4)...),
-			append(sel("B"), loop("move", "A", "1:3", 4)...),
-		}})
-		// expunge during fetches, flag changes during searches
-		runTrial(t, trial{procs: procs, preload: 40, progs: [][]op{
-			append(sel("A"), loop("fetch", "", "1:*", 4)...),
-			append(sel("A"), op{kind: "expunge"}, op{kind: "append", box: "A"}, op{kind: "store", arg: "1:*"}, op{kind: "expunge"}),
-			append(sel("A"), op{kind: "search"}, op{kind: "unstore", arg: "1:*"}, op{kind: "uidsearch", arg: "1:*"}, op{kind: "fetchseen", arg: "1:*"}),
-			append(sel("A"), op{kind: "idle"}, op{kind: "idle"}, op{kind: "noop"}),
-		}})
-		// listing during create / rename / delete, status during appends
-		runTrial(t, trial{procs: procs, preload: 3, progs: [][]op{
-			append(loop("list", "", "", 4), op{kind: "lsub"}),
-			{{kind: "create", arg: "X"}, {kind: "rename", box: "X", arg: "Y"}, {kind: "delete", arg: "Y"}, {kind: "create", arg: "X"}, {kind: "subscribe", box: "X"}, {kind: "delete", arg: "X"}},
-			append(loop("append", "B", "", 3), op{kind: "status", box: "B"}),
-			append(loop("status", "B", "", 3), op{kind: "select", box: "B"}, op{kind: "close"}),
-		}})
+		for _, tr := range conc.Scenarios([]int{2, 4, 16}[i%3]) {
+			conc.RunTrial(t, tr, nil)
+		}
 		ev.EvalN(3)
 	}
 	ev.NonTrivial("scenario:opposite-copy-move")
